@@ -1,9 +1,9 @@
 #!/bin/bash
-# usage: base_in.sh Cxx  -- pinned suite in fresh copy of /repo with /tmp/seed5/Cxx/patch.diff applied
+# usage: baseline_scratch.sh Cxx [seed-dir-root]  -- pinned suite in a fresh copy of /repo with <root>/Cxx/patch.diff applied
 id=$1
 d=$(mktemp -d /tmp/qrv-b5-XXXXXX)
 git -C /repo archive HEAD | tar -x -C $d
-( cd $d && git apply --unsafe-paths /tmp/seed5/$id/patch.diff 2>/dev/null || patch -p1 --quiet < /tmp/seed5/$id/patch.diff ) || { echo "$id patch failed"; rm -rf $d; exit 3; }
+( cd $d && git apply --unsafe-paths /tmp/seed6/$id/patch.diff 2>/dev/null || patch -p1 --quiet < /tmp/seed6/$id/patch.diff ) || { echo "$id patch failed"; rm -rf $d; exit 3; }
 out=$d/.out; mkdir -p $out $d/.shim
 cat > $d/.shim/sitecustomize.py <<PYX
 import sys
